@@ -163,6 +163,7 @@ type c05env struct {
 	recSync bool                             // C06: record Sync calls of the IO leaves' sinks
 	mkSink  func(id int) zapcore.WriteSyncer // C06 child processes: file-backed buffered sinks
 	onHook  func(id int)                     // C06 child processes: hook events go to a file
+	onSamp  func(k int, dropped bool)        // C06 child processes: sampler decisions go to a file
 }
 
 type c05sink struct {
@@ -261,6 +262,9 @@ func (env *c05env) build(n *c05node) zapcore.Core {
 		env.nsamp++
 		hook := zapcore.SamplerHook(func(_ zapcore.Entry, d zapcore.SamplingDecision) {
 			env.samp = append(env.samp, c05samp{k, d&zapcore.LogDropped != 0})
+			if env.onSamp != nil {
+				env.onSamp(k, d&zapcore.LogDropped != 0)
+			}
 		})
 		if n.tag == 5 {
 			return zapcore.NewSamplerWithOptions(env.build(n.kids[0]), time.Second, 1<<30, 0, hook)
